@@ -82,9 +82,13 @@ func (e *Engine) SetupProcess() error {
 	if err := setRows(40); err != nil {
 		return fmt.Errorf("TIOCSWINSZ: %w", err)
 	}
+	core.CurrentTrace = func() (string, interface{}) { return "uisim", curTrace }
 	go watchdog()
 	return nil
 }
+
+// curTrace is the trace being generated or executed (dumped by the watchdog).
+var curTrace *Trace
 
 // watchdog: real timer, influences only aborting (distinctive exit status),
 // never a verdict. The tool can only be bounded from outside when it loops
@@ -96,12 +100,10 @@ func watchdog() {
 			continue
 		}
 		if st, err := capture.Stat(); err == nil && st.Size() > 64<<20 {
-			fmt.Fprintf(os.Stderr, "HARNESS: watchdog: captured output exceeds 64 MiB without re-entering the simulator\n")
-			os.Exit(98)
+			core.OnHang("more than 64 MiB of output were written without re-entering the simulator", "(*session).run")
 		}
 		if time.Now().UnixNano()-atomic.LoadInt64(&lastBeat) > int64(30*time.Second) {
-			fmt.Fprintf(os.Stderr, "HARNESS: watchdog: one event lasted more than 30 s\n")
-			os.Exit(97)
+			core.OnHang("one input event lasted more than 30 s without re-entering the simulator", "(*session).run")
 		}
 	}
 }
